@@ -390,6 +390,9 @@ wrapint wrapint::lshr(wrapint x) const {
 // arithmetic right shift
 wrapint wrapint::ashr(wrapint x) const {
   sanity_check_bitwidths(x);
+  if (x._n == 0) {
+    return *this;
+  }
   if (!msb()) {
     return wrapint(_n >> x._n, _width, _mod);
   } else {
@@ -398,7 +401,9 @@ wrapint wrapint::ashr(wrapint x) const {
         (_width < 64 ? ((uint64_t)1 << (uint64_t)_width) - 1 : UINT64_MAX);
     // 1110..0
     uint64_t only_upper_bits_ones = all_ones << (uint64_t)(_width - x._n);
-    return wrapint(only_upper_bits_ones | (_n >> x._n), _width, _mod);
+    // the bits shifted above the bitwidth must be dropped
+    return wrapint((only_upper_bits_ones | (_n >> x._n)) & all_ones, _width,
+                   _mod);
   }
 }
 
